@@ -139,6 +139,7 @@ class Driver:
         self.cur_fp = None
         self._fs_saved = install_fs(self.fs) if use_fs else None
         self.n_file = 0
+        self.blob_files = {}      # blob id -> SimFile handed to add_fp (fault injection target)
 
     def close(self):
         if self._fs_saved is not None:
@@ -204,13 +205,45 @@ class Driver:
     def apply_doomed(self, op):
         """Apply a call that must be refused; the model is never advanced."""
         self.world.clock.take_readings()
+        injected = None
+        flt = op.get('fault')
+        if flt and flt.get('target') == 'blobfp':
+            from .disk import Fault
+            f = self.blob_files.get(flt['blob'])
+            if f is not None:
+                injected = (f, Fault.from_json(flt['fault']))
+                f.counts = {'read': 0, 'write': 0, 'seek': 0}
+                f.faults.append(injected[1])
         try:
             getattr(self, 'do_' + op['op'])(op)
             out = Outcome(True)
         except Exception as e:  # noqa
             out = Outcome(False, e)
+        finally:
+            if injected is not None:
+                injected[0].faults.remove(injected[1])
+                self.fault_fired = injected[1].fired
         self.history.append((op, out))
         return out
+
+    def do_new_again(self, op):
+        self.iso.new()
+
+    def do_write_fault(self, op):
+        from .disk import Fault
+        faults = [Fault.from_json(op['fault'])] if op.get('fault') else None
+        d = SimDisk('faulty', b'', self.world.next_seq)
+        f = SimFile(d, 'wb', faults)
+        kw = {}
+        if op.get('progress_raise_at'):
+            state = {'n': 0}
+
+            def cb(done, total, opaque=None):
+                state['n'] += 1
+                if state['n'] == op['progress_raise_at']:
+                    raise RuntimeError('simulated failure inside progress_cb')
+            kw['progress_cb'] = cb
+        self.iso.write_fp(f, self.blocksize, **kw)
 
     def _blob_fp(self, op):
         b = M.Blob(op['blob'], op['len'], op.get('overlays') or ())
@@ -224,6 +257,7 @@ class Driver:
         d.keep_log = False
         f = SimFile(d, 'rb')
         self.keep.append(f)
+        self.blob_files[op['blob']] = f
         return f
 
     def do_add_fp(self, op):
